@@ -16,7 +16,14 @@ block = m.group(1) if m else ""
 confirmed = ("CONFIRMED " + sid) in block and ("NOT CONFIRMED " + sid) not in block
 conf_lines = [l for l in block.splitlines() if re.match(r"(suite_with_change_exit|demo_with_change_exit|demo_without_change_exit|CONFIRMED|NOT CONFIRMED)", l)]
 # detection
-out = subprocess.run(["/verif/tools/run_on_seed.sh", os.path.join(dst, "patch.diff")], capture_output=True, text=True).stdout
+# detection on a scratch copy of the committed tree (same result as applying the patch to /repo and reverting; does not
+# disturb other runs that read /repo's working tree)
+import tempfile
+tmp = tempfile.mkdtemp(prefix="kzstore-")
+subprocess.run("git -C /repo archive HEAD v2 | tar -x -C " + tmp, shell=True, check=True)
+subprocess.run(["patch", "-p1", "-s", "-f", "-d", tmp, "-i", os.path.join(dst, "patch.diff")], check=True)
+out = subprocess.run(["/verif/bin/kzcheck", "-repo", tmp + "/v2", "-all"], capture_output=True, text=True).stdout.replace(tmp + "/v2/", "")
+shutil.rmtree(tmp, ignore_errors=True)
 det = []
 cur = None
 for l in out.splitlines():
